@@ -231,6 +231,18 @@ func crGuardRule(c *core.Ctx, key string, fn *ssa.Function, pack bool) {
 				if k, ok := constInt(sub.Y); !ok || k != 1 {
 					problems = append(problems, "the strip at "+at+" does not drop exactly one septet")
 				}
+				// the shortened slice is what the function goes on with (a strip whose result nothing reads strips nothing)
+				live := false
+				if sl.Referrers() != nil {
+					for _, r := range *sl.Referrers() {
+						if _, isDbg := r.(*ssa.DebugRef); !isDbg {
+							live = true
+						}
+					}
+				}
+				if !live {
+					problems = append(problems, "the result of the strip at "+at+" is never used: the fill CR stays in the output")
+				}
 				xr := role(plain, sl.X)
 				isLen8 := func(cond ssa.Value) int {
 					r := role(plain, cond)
